@@ -299,6 +299,28 @@ func crashSignature(log string) string {
 	return ""
 }
 
+// unboundedGrowth tells an out-of-memory abort caused by a slice growing
+// without bound (runtime.growslice in the aborting goroutine: a loop that
+// appends without consuming its few-KiB input, i.e. a hang that happens to
+// allocate) from one caused by a single allocation of a declared size
+// (runtime.makeslice: "the decoder asks for more memory than the limit",
+// which the property does not judge).
+func unboundedGrowth(log string) bool {
+	i := strings.Index(log, "fatal error:")
+	if i < 0 {
+		return false
+	}
+	// the first goroutine dump after the fatal error is the aborting one
+	rest := log[i:]
+	if j := strings.Index(rest, "\n\ngoroutine "); j >= 0 {
+		rest = rest[j+2:]
+		if k := strings.Index(rest, "\n\n"); k >= 0 {
+			rest = rest[:k]
+		}
+	}
+	return strings.Contains(rest, "runtime.growslice") && !strings.Contains(rest, "runtime.makeslice")
+}
+
 func crashFrames(log string) string {
 	// the innermost library frames of the crashing goroutine, for the report
 	var out []string
@@ -459,6 +481,9 @@ func check(id, tier string, nworkers, runsOverride int, budgetOverride float64, 
 				}
 				if err != nil {
 					sig := crashSignature(log)
+					if unboundedGrowth(log) {
+						sig = "unbounded growth (out of memory while appending)"
+					}
 					inb, ierr := os.ReadFile(job["out"].(string) + ".inflight")
 					if sig != "" && ierr == nil {
 						// account for the runs the worker finished before it died
@@ -475,7 +500,7 @@ func check(id, tier string, nworkers, runsOverride int, budgetOverride float64, 
 						crun, _ := strconv.Atoi(strings.TrimSpace(string(inb)))
 						class := "crash:" + sig + ":" + crashFrames(log)
 						agg.ints["runs"]++
-						if strings.Contains(sig, "out of memory") || strings.Contains(sig, "cannot allocate") {
+						if (strings.Contains(sig, "out of memory") || strings.Contains(sig, "cannot allocate")) && !unboundedGrowth(log) {
 							if agg.maps["inconclusive"] == nil {
 								agg.maps["inconclusive"] = map[string]int64{}
 							}
@@ -507,7 +532,7 @@ func check(id, tier string, nworkers, runsOverride int, budgetOverride float64, 
 							from = crun + nworkers
 							continue
 						}
-						if strings.Contains(sig, "out of memory") || strings.Contains(sig, "cannot allocate") {
+						if (strings.Contains(sig, "out of memory") || strings.Contains(sig, "cannot allocate")) && !unboundedGrowth(log) {
 							// the decoder asked for more memory than the harness
 							// limit: counted, not judged
 							if agg.maps["inconclusive"] == nil {
@@ -528,6 +553,9 @@ func check(id, tier string, nworkers, runsOverride int, budgetOverride float64, 
 						rjob := map[string]interface{}{"property": id, "tier": tier, "seed": seed, "replay": rpath, "out": filepath.Join(work, fmt.Sprintf("crashreplay%d.json", w))}
 						_, rlog, rerr := runWorker(b, rjob, filepath.Join(work, fmt.Sprintf("crashjob%d.json", w)), watchdog)
 						rsig := crashSignature(rlog)
+						if unboundedGrowth(rlog) {
+							rsig = "unbounded growth (out of memory while appending)"
+						}
 						mu.Lock()
 						resource := func(s string) bool {
 							return strings.Contains(s, "out of memory") || strings.Contains(s, "cannot allocate") || strings.Contains(s, "hang:")
